@@ -639,3 +639,318 @@ func L2Errors() []MethodCase {
 	}
 	return out
 }
+
+// Security family ----------------------------------------------------------------------
+
+// SecSchemes are the scheme definitions used by the security family.
+func SecSchemes() []Scheme {
+	return []Scheme{
+		{Name: "bsc", Kind: "basic"},
+		{Name: "aks", Kind: "apikey"},
+		{Name: "akq", Kind: "apikey"},
+		{Name: "jwt", Kind: "jwt", Scopes: []string{"s1", "s2"}},
+		{Name: "oa2", Kind: "oauth2", Scopes: []string{"s1", "s2"}},
+	}
+}
+
+func secConjunctions(full bool) []Requirement {
+	one := []Requirement{
+		{{Scheme: "bsc"}},
+		{{Scheme: "aks"}},
+		{{Scheme: "akq"}},
+		{{Scheme: "jwt", Scopes: []string{"s1"}}},
+		{{Scheme: "oa2", Scopes: []string{"s2"}}},
+	}
+	if !full {
+		return append(one[:0:0], one[0], one[1], one[3], Requirement{{Scheme: "jwt", Scopes: []string{"s1", "s2"}}, {Scheme: "aks"}}, one[4])
+	}
+	out := append([]Requirement{}, one...)
+	names := []string{"bsc", "aks", "akq", "jwt", "oa2"}
+	for i := 0; i < len(names); i++ {
+		for j := i + 1; j < len(names); j++ {
+			out = append(out, Requirement{one[i][0], one[j][0]})
+		}
+	}
+	return out
+}
+
+// secMethod builds a method carrying the credential attributes of every scheme in use.
+func secMethod(name string, used map[string]bool, implicitJWT bool) *Method {
+	m := &Method{Name: name, Feat: map[string]string{"family": "L2-security"}, HTTP: &HTTPMap{Verb: "POST", Path: "/" + name}}
+	obj := &Type{K: KObject}
+	add := func(a *Attr) { obj.Attrs = append(obj.Attrs, a); obj.Required = append(obj.Required, a.Name) }
+	if used["bsc"] {
+		add(&Attr{Name: "usr", T: P(KString), Sec: "username"})
+		add(&Attr{Name: "pwd", T: P(KString), Sec: "password"})
+	}
+	if used["aks"] {
+		add(&Attr{Name: "keyh", T: P(KString), Sec: "apikey:aks"})
+		m.HTTP.Headers = append(m.HTTP.Headers, Map{"keyh", "X-Key"})
+	}
+	if used["akq"] {
+		add(&Attr{Name: "keyq", T: P(KString), Sec: "apikey:akq"})
+		m.HTTP.Params = append(m.HTTP.Params, Map{"keyq", "k"})
+	}
+	if used["jwt"] {
+		add(&Attr{Name: "tok", T: P(KString), Sec: "token"})
+		if !implicitJWT {
+			m.HTTP.Headers = append(m.HTTP.Headers, Map{"tok", "Authorization"})
+		}
+	}
+	if used["oa2"] {
+		add(&Attr{Name: "atok", T: P(KString), Sec: "accesstoken"})
+		m.HTTP.Headers = append(m.HTTP.Headers, Map{"atok", "X-Oauth"})
+	}
+	add(A("data", P(KString)))
+	m.Payload = obj
+	m.Result = ObjT(nil, A("ok", P(KString)))
+	return m
+}
+
+func usedSchemes(secs ...*Security) map[string]bool {
+	u := map[string]bool{}
+	for _, s := range secs {
+		if s == nil {
+			continue
+		}
+		for _, r := range s.Reqs {
+			for _, x := range r {
+				u[x.Scheme] = true
+			}
+		}
+	}
+	return u
+}
+
+// L2Security enumerates requirement structures (1-3 alternatives of 1-2 schemes each) declared
+// at method, service or API level, with method overrides and NoSecurity, explicit and implicit
+// credential mapping.
+func L2Security(thorough bool) []MethodCase {
+	var out []MethodCase
+	n := 0
+	conj := secConjunctions(thorough)
+	var structures []*Security
+	for _, a := range conj {
+		structures = append(structures, &Security{Reqs: []Requirement{a}})
+	}
+	red := secConjunctions(false)
+	for i, a := range red {
+		for j, b := range red {
+			if i != j {
+				structures = append(structures, &Security{Reqs: []Requirement{a, b}})
+			}
+		}
+	}
+	if thorough {
+		for i, a := range red {
+			for j, b := range red {
+				for k, c := range red {
+					if i != j && j != k && i != k {
+						structures = append(structures, &Security{Reqs: []Requirement{a, b, c}})
+					}
+				}
+			}
+		}
+	} else {
+		structures = append(structures, &Security{Reqs: []Requirement{red[0], red[3], red[1]}}, &Security{Reqs: []Requirement{red[2], red[4], red[0]}})
+	}
+	desc := func(s *Security) string {
+		if s == nil {
+			return "-"
+		}
+		if s.None {
+			return "none"
+		}
+		var alts []string
+		for _, r := range s.Reqs {
+			var names []string
+			for _, x := range r {
+				names = append(names, x.Scheme)
+			}
+			alts = append(alts, strings.Join(names, "&"))
+		}
+		return strings.Join(alts, "|")
+	}
+	for si, st := range structures {
+		for _, level := range []string{"method", "service", "api"} {
+			if level != "method" && si%3 != 0 && !thorough {
+				continue // quick: service/API level for every third structure
+			}
+			name := fmt.Sprintf("m%d", n)
+			n++
+			implicit := len(st.Reqs) == 1 && len(st.Reqs[0]) == 1 && st.Reqs[0][0].Scheme == "jwt" && level == "method"
+			m := secMethod(name, usedSchemes(st), false)
+			m.Feat["level"] = level
+			m.Feat["reqs"] = desc(st)
+			m.Feat["override"] = "none"
+			mc := MethodCase{M: m, Schemes: SecSchemes()}
+			switch level {
+			case "method":
+				m.Security = st
+			case "service":
+				mc.SvcSecurity = st
+				mc.Own = true
+			case "api":
+				mc.APISecurity = st
+				mc.Own = true
+			}
+			out = append(out, mc)
+			if implicit {
+				name := fmt.Sprintf("m%d", n)
+				n++
+				m2 := secMethod(name, usedSchemes(st), true)
+				m2.Security = st
+				m2.Feat["level"], m2.Feat["reqs"], m2.Feat["override"], m2.Feat["mapping"] = level, desc(st), "none", "implicit"
+				out = append(out, MethodCase{M: m2, Schemes: SecSchemes()})
+			}
+		}
+	}
+	// overrides: service/API level requirement, method overrides with another one or NoSecurity
+	base := &Security{Reqs: []Requirement{red[0]}}
+	other := &Security{Reqs: []Requirement{red[2], red[1]}}
+	for _, level := range []string{"service", "api"} {
+		for _, ov := range []string{"method", "nosecurity"} {
+			name := fmt.Sprintf("m%d", n)
+			n++
+			var msec *Security
+			if ov == "method" {
+				msec = other
+			} else {
+				msec = &Security{None: true}
+			}
+			m := secMethod(name, usedSchemes(base, msec), false)
+			m.Security = msec
+			m.Feat["level"], m.Feat["reqs"], m.Feat["override"] = level, desc(base), ov+":"+desc(msec)
+			mc := MethodCase{M: m, Schemes: SecSchemes(), Own: true}
+			if level == "service" {
+				mc.SvcSecurity = base
+			} else {
+				mc.APISecurity = base
+			}
+			out = append(out, mc)
+		}
+	}
+	// API and service level both set: service wins for its methods
+	{
+		name := fmt.Sprintf("m%d", n)
+		n++
+		m := secMethod(name, usedSchemes(base, other), false)
+		m.Feat["level"], m.Feat["reqs"], m.Feat["override"] = "api+service", desc(other), "service-over-api"
+		out = append(out, MethodCase{M: m, Schemes: SecSchemes(), Own: true, APISecurity: base, SvcSecurity: other})
+	}
+	// no security anywhere
+	{
+		name := fmt.Sprintf("m%d", n)
+		m := secMethod(name, map[string]bool{}, false)
+		m.Feat["level"], m.Feat["reqs"], m.Feat["override"] = "none", "-", "none"
+		out = append(out, MethodCase{M: m, Schemes: SecSchemes(), Own: true})
+	}
+	return out
+}
+
+// Views family -----------------------------------------------------------------------
+
+// L2Views enumerates result types with views: every non-empty subset of three attributes as
+// a second view, optional attributes, a nested result type rendered with per-view overrides, a
+// collection, a self-recursive type, and a view fixed in the design.
+func L2Views(thorough bool) []MethodCase {
+	var out []MethodCase
+	n := 0
+	add := func(res *Type, defs []*TypeDef, feat map[string]string) {
+		m := &Method{Name: fmt.Sprintf("m%d", n), Feat: feat, Result: res, HTTP: &HTTPMap{Verb: "GET"}}
+		m.HTTP.Path = "/" + m.Name
+		feat["family"] = "L2-views"
+		n++
+		out = append(out, MethodCase{M: m, Types: defs})
+	}
+	attrs := []string{"aa", "bb", "cc"}
+	for mask := 1; mask < 8; mask++ {
+		var sub []string
+		for i, a := range attrs {
+			if mask&(1<<i) != 0 {
+				sub = append(sub, a)
+			}
+		}
+		name := fmt.Sprintf("Rt%d", mask)
+		td := &TypeDef{Name: name, Kind: "result",
+			Attrs:    []*Attr{A("aa", P(KString)), A("bb", P(KInt)), A("cc", P(KString))},
+			Required: []string{"aa"},
+			Views:    []View{{Name: "default", Attrs: attrs}, {Name: "tiny", Attrs: sub}}}
+		add(User(name), []*TypeDef{td}, map[string]string{"shape": "flat", "tiny": strings.Join(sub, "+")})
+	}
+	// three views
+	{
+		td := &TypeDef{Name: "RtThree", Kind: "result",
+			Attrs:    []*Attr{A("aa", P(KString)), A("bb", P(KInt)), A("cc", P(KString)), A("dd", ArrT(P(KString)))},
+			Required: []string{"aa", "bb"},
+			Views:    []View{{Name: "default", Attrs: []string{"aa", "bb"}}, {Name: "mid", Attrs: []string{"aa", "cc"}}, {Name: "full", Attrs: []string{"aa", "bb", "cc", "dd"}}}}
+		add(User("RtThree"), []*TypeDef{td}, map[string]string{"shape": "three-views"})
+	}
+	child := func() *TypeDef {
+		return &TypeDef{Name: "Child", Kind: "result",
+			Attrs:    []*Attr{A("ca", P(KString)), A("cb", P(KInt))},
+			Required: []string{"ca"},
+			Views:    []View{{Name: "default", Attrs: []string{"ca"}}, {Name: "ext", Attrs: []string{"ca", "cb"}}}}
+	}
+	// nested result type with per-view overrides
+	{
+		parent := &TypeDef{Name: "Parent", Kind: "result",
+			Attrs:    []*Attr{A("pa", P(KString)), A("child", User("Child")), A("kids", ArrT(User("Child")))},
+			Required: []string{"pa"},
+			Views: []View{
+				{Name: "default", Attrs: []string{"pa", "child"}},
+				{Name: "ext", Attrs: []string{"pa", "child", "kids"}, Sub: map[string]string{"child": "ext"}},
+				{Name: "min", Attrs: []string{"pa"}},
+			}}
+		add(User("Parent"), []*TypeDef{child(), parent}, map[string]string{"shape": "nested"})
+	}
+	// collection
+	{
+		td := &TypeDef{Name: "Elem", Kind: "result",
+			Attrs:    []*Attr{A("ea", P(KString)), A("eb", P(KInt))},
+			Required: []string{"ea"},
+			Views:    []View{{Name: "default", Attrs: []string{"ea", "eb"}}, {Name: "tiny", Attrs: []string{"ea"}}}}
+		coll := &TypeDef{Name: "ElemCollection", Kind: "collection", Collection: "Elem"}
+		add(User("ElemCollection"), []*TypeDef{td, coll}, map[string]string{"shape": "collection"})
+	}
+	// view fixed in the design
+	{
+		td := &TypeDef{Name: "RtFixed", Kind: "result",
+			Attrs:    []*Attr{A("aa", P(KString)), A("bb", P(KInt))},
+			Required: []string{"aa"},
+			Views:    []View{{Name: "default", Attrs: []string{"aa", "bb"}}, {Name: "tiny", Attrs: []string{"aa"}}}}
+		t := User("RtFixed")
+		t.View = "tiny"
+		add(t, []*TypeDef{td}, map[string]string{"shape": "fixed-view"})
+	}
+	// single default view only
+	{
+		td := &TypeDef{Name: "RtOne", Kind: "result",
+			Attrs:    []*Attr{A("aa", P(KString)), A("bb", P(KInt))},
+			Required: []string{"aa"},
+			Views:    []View{{Name: "default", Attrs: []string{"aa", "bb"}}}}
+		add(User("RtOne"), []*TypeDef{td}, map[string]string{"shape": "single-view"})
+	}
+	return out
+}
+
+// ViewAttrs is the reference for projection: the attribute names of view v of the named result
+// type and, for each attribute that is itself a result type (or array of it), the view used.
+func (s *Spec) ViewAttrs(typeName, view string) (attrs []string, sub map[string]string, ok bool) {
+	td := s.TypeDefByName(typeName)
+	if td == nil {
+		return nil, nil, false
+	}
+	if td.Kind == "collection" {
+		return s.ViewAttrs(td.Collection, view)
+	}
+	if view == "" {
+		view = "default"
+	}
+	for _, v := range td.Views {
+		if v.Name == view {
+			return v.Attrs, v.Sub, true
+		}
+	}
+	return nil, nil, false
+}
